@@ -64,6 +64,8 @@ Fixpoint ideal_drain (steps : list drain_step) (rem : list elt) : list N :=
       | [] => [0%N] ++ ideal_drain tl rem
       | x :: r' => [1%N; x] ++ ideal_drain tl (rev r')
       end
+  | DSkipFront :: tl => ideal_drain tl (match rem with [] => [] | _ :: rem' => rem' end)
+  | DSkipBack :: tl => ideal_drain tl (match rev rem with [] => rem | _ :: r' => rev r' end)
   end.
 
 Inductive expect : Type :=
